@@ -21,6 +21,7 @@ type Bounds struct {
 	OrderDev int  // max non-identity map-range permutations
 	MaxPerm  int  // cap on alternatives per map range (0 = all)
 	NoRace   bool // disable the happens-before detector
+	NoPrune  bool // disable happens-before state caching
 	MaxExec  int  // budget (0 = none); hitting it marks the run capped
 	Deadline time.Time
 }
@@ -34,6 +35,8 @@ type Stats struct {
 	Capped      bool
 	MaxThreads  int
 	Switches    int64
+	Pruned      int64 // subtrees cut because an equivalent state had been explored with at least the same remaining budget
+	StatesSeen  int64 // distinct (happens-before) states at choice points
 }
 
 // Explore enumerates every schedule of body within the bounds: run(prefix)
@@ -43,6 +46,11 @@ type Stats struct {
 func Explore(b Bounds, body func(), check func(s *vsched.Sched, cost [2]int) bool) Stats {
 	st := Stats{ByPreempt: map[int]int64{}}
 	stop := false
+	type vkey struct {
+		k   [2]uint64
+		dev int
+	}
+	visited := map[vkey]int{}
 	var rec func(prefix []int, cost [2]int)
 	rec = func(prefix []int, cost [2]int) {
 		if stop {
@@ -78,6 +86,18 @@ func Explore(b Bounds, body func(), check func(s *vsched.Sched, cost [2]int) boo
 		pts := s.Points
 		for i := len(prefix); i < len(pts); i++ {
 			p := pts[i]
+			if !b.NoPrune {
+				// happens-before state caching: an equivalent state explored with at least
+				// the same remaining budgets has the same default continuation and had all
+				// its alternatives explored
+				vk := vkey{p.Key, b.OrderDev - cost[1]}
+				rem := b.Preempt - cost[0]
+				if old, ok := visited[vk]; ok && old >= rem {
+					st.Pruned++
+					break
+				}
+				visited[vk] = rem
+			}
 			for alt := 1; alt < p.N; alt++ {
 				c := cost
 				if p.Kind == vsched.KindSched {
@@ -101,6 +121,7 @@ func Explore(b Bounds, body func(), check func(s *vsched.Sched, cost [2]int) boo
 		}
 	}
 	rec(nil, [2]int{})
+	st.StatesSeen = int64(len(visited))
 	return st
 }
 
@@ -178,6 +199,9 @@ func (r *Report) AddStats(s Stats) {
 		r.CapNotes = append(r.CapNotes, r.curJob)
 	}
 	r.Extra["switches"] += s.Switches
+	r.Extra["hb_states"] += s.StatesSeen
+	r.Extra["pruned_subtrees"] += s.Pruned
+	r.States += s.StatesSeen
 	for k, v := range s.ByPreempt {
 		r.Extra[fmt.Sprintf("schedules_with_%d_preemptions", k)] += v
 	}
